@@ -437,6 +437,36 @@ pub fn judge(r: &DuoRun, cfg: &OracleCfg, o: &mut Outcome) -> (WireModel, EndInf
             }
         }
     }
+    // ---------------------------------------------------------- local drop on a healthy transport: a surviving
+    // stream still gets everything the peer had put on the wire before the peer answered our Close
+    let only_drop = !plan.faults.is_empty() && plan.faults.iter().all(|f| matches!(f.kind, FaultKind::DropMux { .. }));
+    if only_drop && cfg.accountant && !plan.link.drop_after_close {
+        let l = r.link.lock().unwrap();
+        for (tag, s) in led.streams.iter().enumerate() {
+            let opener = plan.streams[tag].opener.min(1);
+            let Some(&ix) = wm.by_tag.get(&tag) else { continue };
+            let inst = &wm.insts[ix];
+            for rs in 0..2 {
+                let x = if rs == 0 { opener } else { 1 - opener };
+                let y = 1 - x;
+                let (Some(d), Some(eof)) = (led.mux_dropped[x], s.sides[rs].eof) else { continue };
+                if eof < d || led.mux_dropped[y].is_some() {
+                    continue;
+                }
+                if inst.reset_sent[0].len() + inst.reset_sent[1].len() > 0 || inst.est_sent.is_none() {
+                    continue;
+                }
+                // bytes of this flow the peer put on the wire (all of it precedes the peer's Close)
+                let on_wire: u64 = l.evs.iter().filter(|e| e.stage == Stage::Sent && e.from == y && !e.injected && e.seq >= inst.connect_seq).filter_map(|e| match &*e.w { Wire::Frame(RFrame::Push { id, data }) if *id == inst.id => Some(data.len() as u64), _ => None }).sum();
+                if s.sides[rs].read_total < on_wire {
+                    let msg = format!("stream {tag}: endpoint {x} dropped its multiplexor (seq {d}) on a healthy transport and kept reading the stream; it saw end-of-stream (seq {eof}) after {} bytes although the peer had put {on_wire} bytes of this stream on the wire before answering the Close", s.sides[rs].read_total);
+                    o.violate("C05:eof-before-inflight-data", msg.clone());
+                    o.violate("C08:drop-lost-inflight-data", msg);
+                }
+                o.probe("read-to-eof-after-own-drop", 1);
+            }
+        }
+    }
     // ---------------------------------------------------------- multiplexor-level calls after the end
     for x in 0..2 {
         if !ei.judged[x] {
